@@ -245,6 +245,10 @@ func mapSchemaSetIDs(
 				schemaSetIds[schema.name] = schemaSetId
 				circleID = schemaSetId
 			}
+		} else if id, ok := schemaSetIds[relation]; ok {
+			// The relation does not circle back here, and the related schema has already been
+			// assigned to a set (it may form a circle with other schemas): it stays there.
+			circleID = id
 		} else {
 			// If this schema and its relations does not circle back to itself, we
 			// increment `i` and assign the new value to this schema *only*
